@@ -173,7 +173,7 @@ pub fn lib_spec(r: &mut Rng, variety: bool, idx: usize) -> ElfSpec {
         rodata_before_text: false,
         data_gap_pages: 0,
         link_base: 0,
-        text_sec_skip: 0, moved_tables: false,
+        text_sec_skip: 0, moved_tables: false, force_dyn: false,
     };
     if variety {
         match r.below(8) {
@@ -258,7 +258,7 @@ pub fn build_world(r: &mut Rng, cfg: &WorldCfg) -> Built {
         rodata_before_text: false,
         data_gap_pages: 0,
         link_base: 0,
-        text_sec_skip: 0, moved_tables: false,
+        text_sec_skip: 0, moved_tables: false, force_dyn: false,
     };
     let exe = elfgen::build(&exe_spec);
     if cfg.link_map {
@@ -273,12 +273,23 @@ pub fn build_world(r: &mut Rng, cfg: &WorldCfg) -> Built {
         entries.push((EXE_BASE, HEAP_BASE + name_off as u64, EXE_BASE + exe.dyn_off));
         name_off += 1;
         // optional separate page for the names, filled from its end
+        // three pages: the first library's name straddles the boundary between the first two, the
+        // second library's name starts exactly at the start of the third, the others are packed
+        // against the end of the third page (followed by unmapped memory)
         let names_page = HEAP_BASE + 0x10_0000;
-        let mut page = vec![0u8; 0x1000];
-        let mut page_end = 0x1000usize;
-        for (path, base, img) in &libs {
+        let mut page = vec![0u8; 0x3000];
+        let mut page_end = 0x3000usize;
+        for (li, (path, base, img)) in libs.iter().enumerate() {
             let nb = path.as_bytes();
-            if cfg.names_at_end && page_end > nb.len() + 1 {
+            if cfg.names_at_end && li == 0 && nb.len() >= 4 && nb.len() < 0x800 {
+                let at = 0x1000 - nb.len() / 2;
+                page[at..at + nb.len()].copy_from_slice(nb);
+                entries.push((*base, names_page + at as u64, *base + img.dyn_vaddr));
+            } else if cfg.names_at_end && li == 1 && nb.len() < 0x800 {
+                let at = 0x2000;
+                page[at..at + nb.len()].copy_from_slice(nb);
+                entries.push((*base, names_page + at as u64, *base + img.dyn_vaddr));
+            } else if cfg.names_at_end && page_end > 0x2900 + nb.len() + 1 {
                 let at = page_end - nb.len() - 1;
                 page[at..at + nb.len()].copy_from_slice(nb);
                 page[at + nb.len()] = 0;
@@ -292,7 +303,7 @@ pub fn build_world(r: &mut Rng, cfg: &WorldCfg) -> Built {
             }
         }
         if cfg.names_at_end && !libs.is_empty() {
-            regions.push(RegionSpec { start: names_page, len: 0x1000, perms: "rw-p".into(), offset: 0, inode: 0, name: B(Vec::new()), deleted: false, content: Content::Bytes(B(page)) });
+            regions.push(RegionSpec { start: names_page, len: 0x3000, perms: "rw-p".into(), offset: 0, inode: 0, name: B(Vec::new()), deleted: false, content: Content::Bytes(B(page)) });
         }
         heap[0..4].copy_from_slice(&1i32.to_le_bytes());
         heap[8..16].copy_from_slice(&(HEAP_BASE + lm0 as u64).to_le_bytes());
@@ -474,7 +485,7 @@ pub fn build_world(r: &mut Rng, cfg: &WorldCfg) -> Built {
         rodata_before_text: false,
         data_gap_pages: 0,
         link_base: 0,
-        text_sec_skip: 0, moved_tables: false,
+        text_sec_skip: 0, moved_tables: false, force_dyn: false,
         };
         let img = elfgen::build(&spec);
         regions.push(RegionSpec {
@@ -611,6 +622,17 @@ pub fn spoil_first_lib_name(b: &mut Built, cfg: &WorldCfg) -> bool {
     }
     let addr = HEAP_BASE + 0x40 + (1 + cfg.nlibs as u64) * 40 + 1;
     b.world.plants.push((addr, u64::from_le_bytes(*b"/usr/\xff\xfe/")));
+    true
+}
+
+/// The name pointer of the last entry of the linker list is non-null but unreadable (the target
+/// scribbled over it before crashing).
+pub fn spoil_last_lib_name_pointer(b: &mut Built, cfg: &WorldCfg) -> bool {
+    if !cfg.link_map || cfg.nlibs == 0 {
+        return false;
+    }
+    let entry = HEAP_BASE + 0x40 + cfg.nlibs as u64 * 40;
+    b.world.plants.push((entry + 8, 0x10));
     true
 }
 
